@@ -29,14 +29,18 @@ import (
 	"sync"
 	"testing"
 
+	"github.com/btcsuite/btcd/btcutil/v2"
+	"github.com/btcsuite/btcd/chainhash/v2"
 	"github.com/btcsuite/btcwallet/walletdb"
 	"github.com/lightningnetwork/lnd/channeldb"
 	"github.com/lightningnetwork/lnd/chanstate"
 	"github.com/lightningnetwork/lnd/fn/v2"
 	"github.com/lightningnetwork/lnd/input"
+	"github.com/lightningnetwork/lnd/keychain"
 	"github.com/lightningnetwork/lnd/kvdb"
 	"github.com/lightningnetwork/lnd/lnwallet/chainfee"
 	"github.com/lightningnetwork/lnd/lnwire"
+	"github.com/lightningnetwork/lnd/tlv"
 )
 
 type vchType struct {
@@ -628,7 +632,156 @@ func vchDiskX(cs *chanstate.OpenChannel) map[string]any {
 func (c *vchCtx) reloadDump(lc *LightningChannel) map[string]any {
 	d := c.partyDump(lc)
 	d["diskx"] = vchDiskX(lc.channelState)
+	d["params"] = vchParams(lc.channelState)
 	return d
+}
+
+// vchParams dumps the channel PARAMETERS of an OpenChannel: every persisted
+// field that is fixed when the channel is funded and that commitment
+// construction / verification, the scripts or the resync read back after a
+// restart (not the fields the side writers change: IsPending, confirmation
+// heights, confirmed scid, status).  Row key "init_params" (live objects, after
+// the channels were moved onto their DBs) and key "params" of every reload dump.
+func vchParams(cs *chanstate.OpenChannel) map[string]any {
+	hexs := func(b []byte) string { return fmt.Sprintf("%x", b) }
+	key := func(k keychain.KeyDescriptor) any {
+		pk := ""
+		if k.PubKey != nil {
+			pk = hexs(k.PubKey.SerializeCompressed())
+		}
+		return []any{pk, uint32(k.Family), k.Index}
+	}
+	cfg := func(c *channeldb.ChannelConfig) map[string]any {
+		return map[string]any{
+			"dust": int64(c.DustLimit), "csv": c.CsvDelay,
+			"reserve": int64(c.ChanReserve), "min_htlc": uint64(c.MinHTLC),
+			"max_pending": uint64(c.MaxPendingAmount),
+			"max_htlcs":   c.MaxAcceptedHtlcs,
+			"multisig":    key(c.MultiSigKey),
+			"revocation":  key(c.RevocationBasePoint),
+			"payment":     key(c.PaymentBasePoint),
+			"delay":       key(c.DelayBasePoint),
+			"htlc":        key(c.HtlcBasePoint),
+		}
+	}
+	out := map[string]any{
+		// (ScidAliasFeatureBit is set later by MarkScidAliasNegotiated, one
+		// of the side writers: masked)
+		"chan_type": uint64(cs.ChanType &^ channeldb.ScidAliasFeatureBit),
+		"chain_hash": cs.ChainHash.String(),
+		"funding_outpoint": cs.FundingOutpoint.String(),
+		"scid":             cs.ShortChannelID.ToUint64(),
+		"is_initiator":     cs.IsInitiator,
+		"funding_broadcast_height": cs.FundingBroadcastHeight,
+		"num_confs":                cs.NumConfsRequired,
+		"channel_flags":            uint8(cs.ChannelFlags),
+		"capacity":                 int64(cs.Capacity),
+		"initial_local_balance":    uint64(cs.InitialLocalBalance),
+		"initial_remote_balance":   uint64(cs.InitialRemoteBalance),
+		"local_cfg":                cfg(&cs.LocalChanCfg),
+		"remote_cfg":               cfg(&cs.RemoteChanCfg),
+		"local_shutdown_script":    hexs(cs.LocalShutdownScript),
+		"remote_shutdown_script":   hexs(cs.RemoteShutdownScript),
+		"thaw_height":              cs.ThawHeight,
+		"revocation_key_locator": []uint32{
+			uint32(cs.RevocationKeyLocator.Family),
+			cs.RevocationKeyLocator.Index,
+		},
+		"memo": hexs(cs.Memo), "tapscript_root": nil, "custom_blob": nil,
+		"identity_pub": "",
+	}
+	if cs.IdentityPub != nil {
+		out["identity_pub"] = hexs(cs.IdentityPub.SerializeCompressed())
+	}
+	cs.TapscriptRoot.WhenSome(func(h chainhash.Hash) {
+		out["tapscript_root"] = h.String()
+	})
+	cs.CustomBlob.WhenSome(func(b tlv.Blob) {
+		out["custom_blob"] = hexs(b)
+	})
+	return out
+}
+
+// vchSetParams gives the freshly created pair non-default values (drawn from
+// the case's seed) for the persisted parameters the stock fixture leaves at
+// their zero / uniform values, consistently on both sides (a's Local* = b's
+// Remote*).  Called BEFORE the channels are moved onto their DBs, so the full
+// sync persists them the way funding does.  Not varied: which side is the
+// initiator (the fixture's height-0 commitments are built for alice), keys,
+// capacity, CustomBlob (consumed by the aux components).
+func vchSetParams(r *vrng, a, b *LightningChannel) {
+	as, bs := a.channelState, b.channelState
+	two := func(lo, hi int64) (int64, int64) {
+		x := r.rng(lo, hi)
+		y := r.rng(lo, hi-1)
+		if y >= x {
+			y++
+		}
+		return x, y
+	}
+	set := func(f func(ac, bc *channeldb.ChannelConfig)) {
+		f(&as.LocalChanCfg, &bs.LocalChanCfg)
+		as.RemoteChanCfg.ChannelStateBounds = bs.LocalChanCfg.ChannelStateBounds
+		as.RemoteChanCfg.CommitmentParams = bs.LocalChanCfg.CommitmentParams
+		bs.RemoteChanCfg.ChannelStateBounds = as.LocalChanCfg.ChannelStateBounds
+		bs.RemoteChanCfg.CommitmentParams = as.LocalChanCfg.CommitmentParams
+	}
+	capSat := int64(as.Capacity)
+	set(func(ac, bc *channeldb.ChannelConfig) {
+		x, y := two(3, 300)
+		ac.CsvDelay, bc.CsvDelay = uint16(x), uint16(y)
+		x, y = two(200, 1500)
+		ac.DustLimit, bc.DustLimit = btcutil.Amount(x), btcutil.Amount(y)
+		x, y = two(capSat/100, capSat/100+capSat/200)
+		ac.ChanReserve, bc.ChanReserve = btcutil.Amount(x), btcutil.Amount(y)
+		x, y = two(1, 2)
+		ac.MinHTLC, bc.MinHTLC = lnwire.MilliSatoshi(x), lnwire.MilliSatoshi(y)
+		x, y = two(capSat*1000-1_000_000, capSat*1000)
+		ac.MaxPendingAmount = lnwire.MilliSatoshi(x)
+		bc.MaxPendingAmount = lnwire.MilliSatoshi(y)
+		x, y = two(380, int64(input.MaxHTLCNumber/2))
+		ac.MaxAcceptedHtlcs, bc.MaxAcceptedHtlcs = uint16(x), uint16(y)
+	})
+	// channel type: zero-conf / scid-alias bits (inert for commitments) on a
+	// third of the cases; FrozenBit on a quarter of the non-lease ones
+	ct := as.ChanType
+	if r.intn(3) == 0 {
+		ct |= channeldb.ZeroConfBit | channeldb.ScidAliasChanBit
+	}
+	if !ct.HasLeaseExpiration() && r.intn(4) == 0 {
+		ct |= channeldb.FrozenBit
+	}
+	as.ChanType, bs.ChanType = ct, ct
+	if ct.HasLeaseExpiration() || ct.IsFrozen() {
+		th := uint32(r.rng(400_000, 900_000))
+		as.ThawHeight, bs.ThawHeight = th, th
+	}
+	scid := lnwire.NewShortChanIDFromInt(uint64(r.rng(500_000, 800_000))<<40 |
+		uint64(r.rng(1, 3000))<<16 | uint64(r.rng(0, 3)))
+	as.ShortChannelID, bs.ShortChannelID = scid, scid
+	fl := lnwire.FundingFlag(0)
+	if r.bool() {
+		fl = lnwire.FFAnnounceChannel
+	}
+	as.ChannelFlags, bs.ChannelFlags = fl, fl
+	nc := uint16(r.rng(1, 6))
+	as.NumConfsRequired, bs.NumConfsRequired = nc, nc
+	as.InitialLocalBalance = as.LocalCommitment.LocalBalance
+	as.InitialRemoteBalance = as.LocalCommitment.RemoteBalance
+	bs.InitialLocalBalance = bs.LocalCommitment.LocalBalance
+	bs.InitialRemoteBalance = bs.LocalCommitment.RemoteBalance
+	as.RevocationKeyLocator = keychain.KeyLocator{
+		Family: keychain.KeyFamily(r.rng(1, 9)), Index: uint32(r.rng(1, 1<<20))}
+	bs.RevocationKeyLocator = keychain.KeyLocator{
+		Family: keychain.KeyFamily(r.rng(1, 9)), Index: uint32(r.rng(1, 1<<20))}
+	as.Memo = r.bytes(1 + r.intn(24))
+	bs.Memo = r.bytes(1 + r.intn(24))
+	script := func() lnwire.DeliveryAddress {
+		return append([]byte{0x00, 0x14}, r.bytes(20)...)
+	}
+	sa, sb := script(), script()
+	as.LocalShutdownScript, bs.RemoteShutdownScript = sa, sa
+	bs.LocalShutdownScript, as.RemoteShutdownScript = sb, sb
 }
 
 // vchRevState: what the channel knows of the peer's revocation chain: can the
@@ -2629,6 +2782,10 @@ func TestVerifChan(t *testing.T) {
 					backend = "sqlite"
 				}
 			}
+			paramsOn := vEnvInt("VERIF_CHAN_PARAMS", 1) != 0
+			if paramsOn {
+				vchSetParams(master.fork(uint64(ci)^0x7a3d51), a, b)
+			}
 			var dbs [2]*vchStopDB
 			for i, lc := range []*LightningChannel{a, b} {
 				dbs[i], err = vchMigrate(t, lc, backend, 18556-i)
@@ -2647,7 +2804,8 @@ func TestVerifChan(t *testing.T) {
 				refsOn: vEnvInt("VERIF_CHAN_REFS", 1) != 0,
 				addRef: [2]map[uint64]channeldb.AddRef{{}, {}},
 				destIdx: [2]map[uint64]uint16{{}, {}},
-				r: r, ct: ty.ct, ch: [2]*LightningChannel{a, b},
+				r: r, ct: a.channelState.ChanType,
+				ch: [2]*LightningChannel{a, b},
 				chanID: lnwire.NewChanIDFromOutPoint(
 					a.channelState.FundingOutpoint,
 				),
@@ -2676,6 +2834,10 @@ func TestVerifChan(t *testing.T) {
 				"init": map[string]any{
 					"a": c.partyDump(a), "b": c.partyDump(b),
 				},
+			}
+			row["init_params"] = map[string]any{
+				"a": vchParams(a.channelState),
+				"b": vchParams(b.channelState),
 			}
 			c.prevHL = [2]map[string]any{vchHL(a), vchHL(b)}
 			row["init_hl"] = map[string]any{"a": c.prevHL[0], "b": c.prevHL[1]}
